@@ -114,6 +114,10 @@ class Translator:
                     return "(ECall %s %s)" % (cstr("isinstance:" + pos[1].id), lst([self.expr(pos[0])]))
                 raise Unsupported("isinstance form")
             return "(ECall %s %s)" % (cstr(f.id + suffix), lst(args))
+        if (isinstance(f, ast.Attribute) and isinstance(f.value, ast.Call) and isinstance(f.value.func, ast.Name)
+                and f.value.func.id == "super" and not f.value.args and not f.value.keywords):
+            # super().m(args): the base class method applied to self (the proofs check the class's bases)
+            return "(ECall %s %s)" % (cstr("super." + f.attr + suffix), lst(['(EVar "self")'] + args))
         if isinstance(f, ast.Attribute):
             name = self.dotted(f)
             if name is not None:
@@ -241,6 +245,11 @@ class Translator:
                 if len(s.targets) != 1:
                     raise Unsupported("chained assignment")
                 t = s.targets[0]
+                if isinstance(t, ast.Attribute):
+                    if not (isinstance(t.value, ast.Name) and t.value.id == "self"):
+                        raise Unsupported("attribute assignment on something other than self")
+                    out.append("SSetAttr %s %s %s" % (cstr("self"), cstr(t.attr), self.expr(s.value)))
+                    continue
                 if isinstance(t, ast.Subscript):
                     if not isinstance(t.value, ast.Name):
                         raise Unsupported("assignment into a compound object")
@@ -348,7 +357,9 @@ class Fresh:
             if isinstance(s, ast.Assign):
                 t = s.targets[0]
                 self.escaping(s.value, esc)
-                if isinstance(t, ast.Subscript):
+                if isinstance(t, ast.Attribute):
+                    self.drop(state, esc)      # self.a = v: v escapes into the object
+                elif isinstance(t, ast.Subscript):
                     self.escaping(t.slice, esc)
                     x = t.value.id
                     self.drop(state, esc)
@@ -419,8 +430,16 @@ def translate(path, names):
     tree = ast.parse(open(path).read())
     tr = Translator(imported_names(tree))
     found = {}
+    defs_ = []
     for n in tree.body:
-        if isinstance(n, ast.FunctionDef) and n.name in names:
+        if isinstance(n, ast.FunctionDef):
+            defs_.append((n.name, n, None))
+        elif isinstance(n, ast.ClassDef):
+            for m in n.body:
+                if isinstance(m, ast.FunctionDef):
+                    defs_.append((n.name + "." + m.name, m, n))
+    for qual, n, cls in defs_:
+        if qual in names:
             a = n.args
             if a.vararg or a.kwarg or a.kwonlyargs or a.posonlyargs:
                 raise Unsupported("signature of " + n.name)
@@ -431,8 +450,18 @@ def translate(path, names):
             tr.locals = set(params) | {x.id for x in ast.walk(n) if isinstance(x, ast.Name) and isinstance(x.ctx, ast.Store)}
             body = tr.stmts(n.body)
             Fresh(tr).block([s for s in n.body], {}, frozenset())
-            found[n.name] = "Definition src_%s : func :=\n  {| f_params := %s;\n     f_body := %s |}.\n" % (
-                n.name, lst([cstr(p) for p in params]), body)
+            ident = qual.replace(".", "_")
+            found[qual] = "Definition src_%s : func :=\n  {| f_params := %s;\n     f_body := %s |}.\n" % (
+                ident, lst([cstr(p) for p in params]), body)
+            if cls is not None:
+                if cls.keywords and any(k.arg != "metaclass" for k in cls.keywords):
+                    raise Unsupported("class keywords of " + cls.name)
+                bases = []
+                for b in cls.bases:
+                    if not isinstance(b, ast.Name):
+                        raise Unsupported("base class expression of " + cls.name)
+                    bases.append(b.id)
+                found[qual] += "Definition bases_%s : list string := %s.\n" % (ident, lst([cstr(b) for b in bases]))
     missing = [n for n in names if n not in found]
     if missing:
         raise Unsupported("functions not found: %s" % missing)
